@@ -13,10 +13,19 @@ PELTOOL = "modules/pel/peltool/peltool.py"
 def run_inproc(argv):
     """returns (rc, stdout, stderr).  rc is the argument of SystemExit (0, 1 or a message -> 1 with the message on stderr)"""
     from pel.peltool import peltool
+    import signal
     out, err = io.StringIO(), io.StringIO()
     old = sys.argv
     sys.argv = ["peltool.py"] + list(argv)
     rc = None
+
+    class MainTimeout(BaseException):
+        pass
+
+    def on_alarm(signum, frame):
+        raise MainTimeout()
+    old_handler = signal.signal(signal.SIGALRM, on_alarm)
+    signal.setitimer(signal.ITIMER_REAL, 120.0)
     try:
         with contextlib.redirect_stdout(out), contextlib.redirect_stderr(err):
             try:
@@ -35,7 +44,12 @@ def run_inproc(argv):
                 import traceback
                 err.write(traceback.format_exc())
                 rc = 1
+            except MainTimeout:
+                err.write("peltool did not terminate within 120 s\n")
+                rc = "hang"
     finally:
+        signal.setitimer(signal.ITIMER_REAL, 0)
+        signal.signal(signal.SIGALRM, old_handler)
         sys.argv = old
     return rc, out.getvalue(), err.getvalue()
 
